@@ -55,15 +55,15 @@ def pendOf (s : State) (j : Nat) : Option Pend :=
 theorem pendOf_of_get {s : State} {j : Nat} {a : Actor} (h : s.actors[j]? = some a) : pendOf s j = a.pend := by
   simp [pendOf, h]
 
-/-! ### operations covered by the theorems: the mutex operations (lock, try_lock, unlock) -/
+/-! ### operations covered by the theorems: mutexes (lock, try_lock, unlock), semaphores (acquire, release), barriers (wait) -/
 
 def covOp : Op → Bool
-  | .lock _ | .trylock _ | .unlock _ => true
+  | .lock _ | .trylock _ | .unlock _ | .acquire _ | .release _ | .barrier _ => true
   | _ => false
 
 /-- the first simcall of a covered S4U call -/
 def covPend : Pend → Bool
-  | .mutexAsyncLock _ | .mutexTrylock _ | .mutexUnlock _ => true
+  | .mutexAsyncLock _ | .mutexTrylock _ | .mutexUnlock _ | .semAsyncLock _ | .semUnlock _ | .barAsyncLock _ => true
   | _ => false
 
 /-- `advance` on covered operations: never fails, the new pending simcall is the first simcall of a covered call (or
@@ -88,6 +88,9 @@ theorem advance_cov (s : State) (i : Nat) (a : Actor) : ∀ l : List Op, (∀ op
       split
       · simp [covPend]; exact hrest
       · exact ih hrest
+    case acquire k => simp [advance, covPend]; exact hrest
+    case release k => simp [advance, covPend]; exact hrest
+    case barrier b => simp [advance, covPend]; exact hrest
 
 /-! ### frame lemmas of the state primitives -/
 
